@@ -191,12 +191,16 @@ pub fn new_channel(cap: usize) -> usize {
     st.chans.push(Chan { cap, sent: 0, recvd: 0, sender_alive: true, receiver_alive: true });
     let c = st.chans.len() - 1;
     st.threads.push(Th { status: Status::Pending, ops_done: 0, hist: 0, name: format!("w{}", c) });
-    assert_eq!(st.threads.len() - 1, c + 1);
+    // the worker's logical thread id (the handler thread may have been created in between)
+    CHAN_TID.lock().unwrap().push(st.threads.len() - 1);
     c
 }
 
+/// logical thread id of the worker that owns channel `c`
+static CHAN_TID: Mutex<Vec<usize>> = Mutex::new(Vec::new());
+
 fn tid_for_chan(c: usize) -> usize {
-    c + 1
+    CHAN_TID.lock().unwrap()[c]
 }
 
 /// Bind the calling OS thread to the worker that owns channel `c` (first use wins).
@@ -217,7 +221,9 @@ pub fn my_tid() -> Option<usize> {
                 (std::thread::current().name().map(|s| s.to_string()), std::env::var("S4V_SOURCES"))
             {
                 if let Some(i) = srcs.split(',').position(|x| x == name) {
-                    t.set(Some(i + 1));
+                    if let Some(tid) = CHAN_TID.lock().unwrap().get(i) {
+                        t.set(Some(*tid));
+                    }
                 }
             }
         }
@@ -256,6 +262,13 @@ impl State {
                     Op::Send(c) => {
                         let ch = &self.chans[*c];
                         if ((ch.sent - ch.recvd) as usize) < ch.cap || !ch.receiver_alive {
+                            v.push((tid, 0, op.short()));
+                        }
+                    }
+                    // pseudo-lock "JOIN": the thread waits for every worker thread to end (JoinHandle::join)
+                    Op::LockAcq(name, _) if *name == "JOIN" => {
+                        let workers: Vec<usize> = CHAN_TID.lock().unwrap().clone();
+                        if workers.iter().all(|w| self.threads[*w].status == Status::Finished) {
                             v.push((tid, 0, op.short()));
                         }
                     }
@@ -552,20 +565,28 @@ pub fn lock_release(name: &'static str) {
     }
 }
 
+static HOOKS_ON: std::sync::OnceLock<bool> = std::sync::OnceLock::new();
+
+/// The cfg(s4_verif) hook points are scheduling points only when S4V_HOOKS is set (C18); otherwise they are inert,
+/// so the schedule spaces of C01/C06 are those of the channel operations alone.
+pub fn hooks_on() -> bool {
+    *HOOKS_ON.get_or_init(|| std::env::var_os("S4V_HOOKS").is_some())
+}
+
 pub fn hook_point(name: &'static str) {
-    if controlled() && my_tid().is_some() {
+    if controlled() && hooks_on() && my_tid().is_some() {
         park(Op::Point(name));
     }
 }
 
 pub fn hook_lock_acquire(name: &'static str, write: bool) {
-    if controlled() && my_tid().is_some() {
+    if controlled() && hooks_on() && my_tid().is_some() {
         park(Op::LockAcq(name, write));
     }
 }
 
 pub fn hook_lock_release(name: &'static str) {
-    if controlled() {
+    if controlled() && hooks_on() {
         lock_release(name);
     }
 }
